@@ -102,9 +102,19 @@ class EncoderModel:
                                                      for ff, k, n in self.writes.get(self.msgtype, []) if ff is f), "message-type setter")
         self.fit_checker = method_with(lambda f: (f.raw.get("rett") or {}).get("k") == "bool" and any(
             self.fb.resolve_call(c) is self.opener for c in f.calls()), "fit checker")
-        self.flag_builder = method_with(lambda f: (f.raw.get("rett") or {}).get("enum") == MH + "::SegmentType", "segment-flag builder")
+        # the flag builder may be a member or a file-local function: whatever the segmentation loop calls that returns a SegmentType
+        fbs = {}
+        for c in self.putPacket.calls():
+            g = fb.resolve_call(c)
+            if g is not None and g.body is not None and (g.raw.get("rett") or {}).get("enum") == MH + "::SegmentType" and not g.name.startswith(MH):
+                fbs[g.key] = g
+        if len(fbs) != 1:
+            raise Broken("Encoder: cannot bind role 'segment-flag builder' (%d candidates)" % len(fbs))
+        self.flag_builder = list(fbs.values())[0]
+        # the finisher hands the frames out: returns the frame list type, takes no packet, and is not an encode entry point (nor a range helper of one)
         self.finisher = method_with(lambda f: (f.raw.get("rett") or {}).get("s", "").startswith("std::vector<std::vector<unsigned char") and
-                                    f.name.split("::")[-1] != "encode", "frame finisher")
+                                    f.name.split("::")[-1] != "encode" and not f.params and
+                                    not any(fb.resolve_call(c) is self.putPacket for c in f.calls()), "frame finisher")
         self.encodes = [f for f in self.methods if f.name == ENC + "::encode"]
         if len(self.encodes) < 3:
             raise Broken("Encoder: expected at least 3 encode overloads (incl. witness instantiations), found %d" % len(self.encodes))
@@ -568,10 +578,30 @@ def rule_fit_decided_on_fresh_frame(res, rid, m):
 
 def rule_batch_order(res, rid, m):
     """C08-R5: encode walks the range once, forwards, one putPacket per element; frames are only appended."""
-    for e in m.encodes:
-        loops = paths.loop_header(e)
-        tag = encode_tag(e)
+    for e0 in m.encodes:
+        e = e0
+        tag = encode_tag(e0)
         puts = [c for c in e.calls() if m.calls_fn(c, m.putPacket)]
+        if not puts and not paths.loop_header(e):
+            # the range is handed, unchanged, to one private range helper that owns the loop
+            hs = [(c, m.fb.resolve_call(c)) for c in e.calls() if m.fb.resolve_call(c) is not None and m.fb.resolve_call(c).rec == ENC and
+                  m.fb.resolve_call(c) not in m.encodes and any(m.calls_fn(x, m.putPacket) for x in m.fb.resolve_call(c).calls())]
+            if len(hs) == 1 and len(e.params) >= 2 and len(hs[0][0].get("args", [])) >= 2:
+                a = hs[0][0]["args"]
+
+                def unwrap(x):
+                    x = strip_all_casts(x)
+                    while x.get("k") == "construct" and len(x.get("args", [])) == 1:
+                        x = strip_all_casts(x["args"][0])
+                    while x.get("k") == "call" and callee_name(x) in ("std::move", "std::forward") and x.get("args"):
+                        x = strip_all_casts(x["args"][0])
+                    return x
+                fwd_ok = unwrap(a[0]).get("decl") == e.params[0]["decl"] and unwrap(a[1]).get("decl") == e.params[1]["decl"]
+                res.check(fwd_ok, rid, "encode(%s):forwards-range" % tag, hs[0][0].get("loc"), "[begin, end) handed unchanged to %s" % hs[0][1].name.split("::")[-1],
+                          "encode does not hand its own [begin, end) to the range helper unchanged")
+                e = hs[0][1]
+                puts = [c for c in e.calls() if m.calls_fn(c, m.putPacket)]
+        loops = paths.loop_header(e)
         if not loops:
             dele = [c for c in e.calls() if m.fb.resolve_call(c) in m.encodes and m.fb.resolve_call(c) is not e]
             if not puts and len(dele) == 1 and len(dele[0].get("args", [])) >= 2:
